@@ -1318,7 +1318,15 @@ class Mixture(_AbstractDistribution):
             probs = _numpy.exp(log_terms - shift)
 
         gr = _numpy.sum(
-            _numpy.array([prob * (-grad) for prob, grad in zip(probs, gradients)]),
+            # A component with zero weight here (e.g. outside its own bounds, where its
+            # gradient is infinite) does not contribute: 0 * inf would be nan
+            _numpy.array(
+                [
+                    prob * (-grad)
+                    for prob, grad in zip(probs, gradients)
+                    if prob > 0.0
+                ]
+            ),
             axis=0,
         )
 
